@@ -375,6 +375,36 @@ func engineTotality(ctx *Ctx) {
 			os.Remove(p)
 			continue
 		}
+		if k%3 == 1 {
+			// the loader the search command uses (retry, then fallbacks) on the same content, with whatever lies in <file>.backup
+			// beside it: it returns a usable database or an error, never neither
+			bk := [][]byte{nil, {}, []byte("[]\n"), []byte("# nothing here\n"), []byte("null\n"), f.Content, []byte("- command: ok\n  description: from the backup\n"), []byte("{{{")}[(k/3)%8]
+			if bk != nil {
+				os.WriteFile(p+".backup", bk, 0o644)
+			}
+			main := p
+			if (k/3)%2 == 1 {
+				main = p + ".missing"
+				os.WriteFile(main+".backup", bk, 0o644)
+			}
+			var fdb *database.Database
+			var ferr error
+			okF := c10Watch(budget, func() {
+				ctx.R.Guard("C10", "LoadDatabaseWithFallback", cs, func() {
+					fdb, ferr = recovery.NewDatabaseRecovery(recovery.RetryConfig{MaxAttempts: 1}).LoadDatabaseWithFallback(main, p+".no-notebook")
+					if fdb != nil {
+						fdb.SearchUniversal("list files", database.SearchOptions{Limit: 3, UseNLP: true, UseFuzzy: true})
+					}
+				})
+			})
+			ctx.R.Path("calls-LoadDatabaseWithFallback", 1)
+			if okF && fdb == nil && ferr == nil {
+				ctx.R.Violate(vlib.Violation{Property: "C10", Clause: "nil-database", Path: "LoadDatabaseWithFallback",
+					Detail: fmt.Sprintf("neither a database nor an error (main file class %s, backup content %q)", f.Class, vlib.Trunc(string(bk), 40)), Witness: cs})
+			}
+			os.Remove(p + ".backup")
+			os.Remove(main + ".backup")
+		}
 		os.Remove(p)
 		ctx.R.Path("files-"+f.Class, 1)
 		if err != nil {
@@ -552,6 +582,13 @@ func engineTotalityCLI(ctx *Ctx) {
 		}
 		p := filepath.Join(base, "db.yml")
 		os.WriteFile(p, f.Content, 0o644)
+		os.Remove(p + ".backup")
+		os.Remove(filepath.Join(base, "gone.yml.backup"))
+		if k%5 == 4 { // the database file is gone and something lies in <file>.backup
+			p = filepath.Join(base, "gone.yml")
+			os.WriteFile(p+".backup", [][]byte{{}, []byte("[]\n"), []byte("# empty\n"), f.Content}[(k/5)%4], 0o644)
+			ctx.R.Path("cli-runs-with-a-backup-file-only", 1)
+		}
 		for _, format := range []string{"list", "table", "json"} {
 			q := "findme"
 			if len(words) > 0 && r.Intn(2) == 0 {
